@@ -205,6 +205,15 @@ def reindex_database(
             or old_file_to_hash[zorg_page_name] != hash_
         ):
             num_of_updates += 1
+            zorg_page = walk_zorg_page(
+                cmd.zettel_dir, Path(zorg_page_name), verbose=cmd.verbose
+            )
+            zorg_page_path_str = c.strip_zdir(cmd.zettel_dir, zorg_page.path)
+            if zorg_page.has_errors and zorg_page_path_str not in error_files:
+                # Refuse the file BEFORE we touch the DB, so the index keeps
+                # the last good version of it instead of a half-removed one.
+                raise RuntimeError(f"Zorg file has errors!: {zorg_page.path}")
+
             old_zorg_page = session.repo.remove_file_by_name(zorg_page_name)
             if old_zorg_page is not None:
                 _LOGGER.debug("Removing file from DB", file=zorg_page_name)
@@ -222,10 +231,6 @@ def reindex_database(
                     bg_color=Color.GREEN,
                 )
 
-            zorg_page = walk_zorg_page(
-                cmd.zettel_dir, Path(zorg_page_name), verbose=cmd.verbose
-            )
-            zorg_page_path_str = c.strip_zdir(cmd.zettel_dir, zorg_page.path)
             if not zorg_page.has_errors and zorg_page_path_str in error_files:
                 c.zprint(
                     "PREVIOUSLY BROKEN ZORG FILE HAS BEEN FIXED!",
@@ -234,10 +239,6 @@ def reindex_database(
                     bg_color=Color.GREEN,
                 )
                 error_files.remove(zorg_page_path_str)
-            elif (
-                zorg_page.has_errors and zorg_page_path_str not in error_files
-            ):
-                raise RuntimeError(f"Zorg file has errors!: {zorg_page.path}")
 
             _check_for_modified_notes(cmd.zettel_dir, zorg_page, old_zorg_page)
             _LOGGER.debug("Adding zorg file", file=zorg_page_name)
